@@ -2,7 +2,9 @@
 // an iterator program over two registers (begin()/end() iterators, or elements() iterators)
 // and prints what the real iterators observe.  No expected values in here.
 //
-// input line: I <id> <view program> <kind:outer|elems> <p1> <p2> <nops> { <op> <r> <s> <n> }
+// input line: I <id> <view program> <kind:outer|elems> <p1> <p2> <nops> { <op> <r> <s> <n> } T <has twin:0|1> <g1> <g2> [<op> <nargs> <args>]
+//   twin: a second view of the same dimensionality derived from the view by one operation; g1 g2: which range (0 view, 1 twin)
+//   each register points into at the end (as the generator intends; used to choose what to observe against)
 //   p1 p2: the positions the generator intends (used only to choose which offsets to probe
 //   with it[n], and whether to dereference -- never compared here)
 #include "viewprog.hpp"
@@ -21,8 +23,11 @@ template<class V> void cells_of(V const& v, std::vector<long>& out) {
 	}
 }
 
-template<class It, class Range>
-void run_iter_program(Range&& rng, std::vector<iop_t> const& prog, long p1, long p2, std::ostream& os) {
+struct twin_req { bool has = false; op_t op; long g1 = 0, g2 = 0; };
+
+// CIt: the const_iterator type of the range.  main/twin: the view's range and its twin's (equal C++ type).
+template<class It, class CIt, class Range>
+void run_iter_program(Range&& rng, Range&& twin, std::vector<iop_t> const& prog, long p1, long p2, long g1, long g2, std::ostream& os) {
 	std::optional<It> reg[2];
 	bool ok = guard::run([&] {
 		reg[0].emplace(rng.begin());
@@ -37,6 +42,8 @@ void run_iter_program(Range&& rng, std::vector<iop_t> const& prog, long p1, long
 			It& x = *reg[r];
 			if(o.op == "begin")        { x = rng.begin(); }
 			else if(o.op == "end")     { x = rng.end(); }
+			else if(o.op == "tbegin")  { x = twin.begin(); }
+			else if(o.op == "tend")    { x = twin.end(); }
 			else if(o.op == "inc")     { ++x; }
 			else if(o.op == "dec")     { --x; }
 			else if(o.op == "postinc") { It old = x++; (void)old; }
@@ -52,75 +59,95 @@ void run_iter_program(Range&& rng, std::vector<iop_t> const& prog, long p1, long
 		++done;
 	}
 	os << ",\"st\":\"ok\"";
-	long N = -1;
 	auto field = [&](char const* name, auto&& body) {
 		std::ostringstream tmp;
 		bool fin = guard::run([&] { body(tmp); });
 		os << ",\"" << name << "\":";
 		if(fin) { os << tmp.str(); } else { os << "{\"abort\":" << guard::last_json() << "}"; }
 	};
+	// each register is observed against the range it points into
+	std::decay_t<Range>* R[2] = {std::addressof(g1 == 0 ? rng : twin), std::addressof(g2 == 0 ? rng : twin)};
+	long N = -1, NS[2] = {-1, -1};
 	field("n", [&](auto& t) { N = static_cast<long>(rng.end() - rng.begin()); t << N; });
-	field("pos", [&](auto& t) { t << '[' << static_cast<long>(*reg[0] - rng.begin()) << ',' << static_cast<long>(*reg[1] - rng.begin()) << ']'; });
-	field("rem", [&](auto& t) { t << '[' << static_cast<long>(rng.end() - *reg[0]) << ',' << static_cast<long>(rng.end() - *reg[1]) << ']'; });
-	field("diff", [&](auto& t) { t << static_cast<long>(*reg[0] - *reg[1]); });
-	field("cmp", [&](auto& t) {
-		It const& a = *reg[0]; It const& b = *reg[1];
-		t << '[' << (a == b) << ',' << (a != b) << ',' << static_cast<bool>(a < b) << ',' << static_cast<bool>(a <= b) << ',' << static_cast<bool>(a > b) << ',' << static_cast<bool>(a >= b) << ']';
-	});
+	field("ns", [&](auto& t) { for(int k = 0; k != 2; ++k) { NS[k] = static_cast<long>(R[k]->end() - R[k]->begin()); } t << '[' << NS[0] << ',' << NS[1] << ']'; });
+	field("pos", [&](auto& t) { t << '[' << static_cast<long>(*reg[0] - R[0]->begin()) << ',' << static_cast<long>(*reg[1] - R[1]->begin()) << ']'; });
+	field("rem", [&](auto& t) { t << '[' << static_cast<long>(R[0]->end() - *reg[0]) << ',' << static_cast<long>(R[1]->end() - *reg[1]) << ']'; });
+	if(g1 == g2) {
+		field("diff", [&](auto& t) { t << static_cast<long>(*reg[0] - *reg[1]); });
+		field("cmp", [&](auto& t) {
+			It const& a = *reg[0]; It const& b = *reg[1];
+			t << '[' << (a == b) << ',' << (a != b) << ',' << static_cast<bool>(a < b) << ',' << static_cast<bool>(a <= b) << ',' << static_cast<bool>(a > b) << ',' << static_cast<bool>(a >= b) << ']';
+		});
+	}
 	field("cmp_ends", [&](auto& t) {  // relation of each register to begin and end
 		t << '[';
-		for(int k = 0; k != 2; ++k) { It const& a = *reg[k]; It b0 = rng.begin(); It e0 = rng.end(); t << (k ? "," : "") << (a == b0) << ',' << (a == e0) << ',' << static_cast<bool>(b0 < a) << ',' << static_cast<bool>(a < e0); }
+		for(int k = 0; k != 2; ++k) { It const& a = *reg[k]; It b0 = R[k]->begin(); It e0 = R[k]->end(); t << (k ? "," : "") << (a == b0) << ',' << (a == e0) << ',' << static_cast<bool>(b0 < a) << ',' << static_cast<bool>(a < e0); }
 		t << ']';
 	});
 	long ps[2] = {p1, p2};
 	for(int k = 0; k != 2; ++k) {
 		field(k == 0 ? "item1" : "item2", [&](auto& t) {
 			std::vector<long> c;
-			if(ps[k] < N) { cells_of(**reg[k], c); }
+			if(ps[k] < NS[k]) { cells_of(**reg[k], c); }
 			jlist(t, c);
 		});
+		// it[n] for every n that stays inside the range
+		field(k == 0 ? "firsts1" : "firsts2", [&](auto& t) {
+			std::vector<long> f;
+			for(long q = 0; q < NS[k]; ++q) {
+				std::vector<long> c;
+				cells_of((*reg[k])[q - ps[k]], c);
+				f.push_back(c.empty() ? -1 : c.front());
+			}
+			jlist(t, f);
+		});
+		// the const_iterator obtained by CONVERTING the register: what it designates, and its neighbours by ++ / --
+		field(k == 0 ? "conv1" : "conv2", [&](auto& t) {
+			CIt c = *reg[k];
+			std::vector<long> item, nx, pv;
+			if(ps[k] < NS[k]) { cells_of(*c, item); }
+			if(ps[k] + 1 < NS[k]) { CIt d = *reg[k]; ++d; std::vector<long> cc; cells_of(*d, cc); nx.push_back(cc.empty() ? -1 : cc.front()); }
+			if(ps[k] > 0 && NS[k] > 0) { CIt d = *reg[k]; --d; std::vector<long> cc; cells_of(*d, cc); pv.push_back(cc.empty() ? -1 : cc.front()); }
+			CIt b = R[k]->begin();
+			t << "{\"item\":"; jlist(t, item); t << ",\"next\":"; jlist(t, nx); t << ",\"prev\":"; jlist(t, pv);
+			t << ",\"pos\":" << static_cast<long>(c - b) << ",\"eq\":" << ((c == *reg[k]) ? 1 : 0) << "}";
+		});
 	}
-	// it[n] for every n that stays inside the range, from register 1
-	field("firsts", [&](auto& t) {
-		std::vector<long> f;
-		for(long q = 0; q < N; ++q) {
-			std::vector<long> c;
-			cells_of((*reg[0])[q - p1], c);
-			f.push_back(c.empty() ? -1 : c.front());
-		}
-		jlist(t, f);
-	});
-	// a copy and a const iterator to the same position
 	field("copy_eq", [&](auto& t) { It c(*reg[0]); t << ((c == *reg[0]) ? 1 : 0) << ""; });
 }
 
-template<int D> void observe_iters(view_t<D>& v, std::string const& kind, std::vector<iop_t> const& prog, long p1, long p2, std::ostream& os) {
+template<int D> void observe_iters(view_t<D>& v, view_t<D>& tw, twin_req const& q, std::string const& kind, std::vector<iop_t> const& prog, long p1, long p2, std::ostream& os) {
 	if(kind == "outer") {
 		using It = typename view_t<D>::iterator;
-		run_iter_program<It>(v, prog, p1, p2, os);
+		using CIt = typename view_t<D>::const_iterator;
+		run_iter_program<It, CIt>(v, tw, prog, p1, p2, q.g1, q.g2, os);
 		// const and mutable iterators to one position compare equal
 		bool fin = guard::run([&] {
-			typename view_t<D>::const_iterator c = v.begin() + p1;
-			typename view_t<D>::iterator m = v.begin() + p1;
+			typename view_t<D>::const_iterator c = v.begin() + (q.g1 == 0 ? p1 : 0);
+			typename view_t<D>::iterator m = v.begin() + (q.g1 == 0 ? p1 : 0);
 			os << ",\"const_eq\":" << ((c == m) ? 1 : 0);
 		});
 		if(!fin) { os << ",\"const_eq\":{\"abort\":" << guard::last_json() << "}"; }
 	} else {
 		auto&& es = v.elements();
+		auto&& tes = tw.elements();
 		using It = std::decay_t<decltype(es.begin())>;
-		run_iter_program<It>(es, prog, p1, p2, os);
+		using CIt = std::decay_t<decltype(std::as_const(es).begin())>;
+		static_assert(!std::is_same_v<It, CIt>, "elements() of a mutable view must have a distinct const_iterator");
+		run_iter_program<It, CIt>(es, tes, prog, p1, p2, q.g1, q.g2, os);
 		bool fin = guard::run([&] {
 			auto const& ces = es;
-			auto c = ces.begin() + p1;  // const_iterator
-			os << ",\"const_eq\":" << ((c - ces.begin()) == p1 ? 1 : 0);
+			long pp = (q.g1 == 0 ? p1 : 0);
+			auto c = ces.begin() + pp;  // const_iterator
+			os << ",\"const_eq\":" << ((c - ces.begin()) == pp ? 1 : 0);
 			long ne = static_cast<long>(es.size());
-			if(ne > 0) { os << ",\"front\":" << cellno(es.front()) << ",\"back\":" << cellno(es.back()) << ",\"at_p1\":" << (p1 < ne ? cellno(es[p1]) : -1); }
+			if(ne > 0) { os << ",\"front\":" << cellno(es.front()) << ",\"back\":" << cellno(es.back()) << ",\"at_p1\":" << (pp < ne ? cellno(es[pp]) : -1); }
 		});
 		if(!fin) { os << ",\"const_eq\":{\"abort\":" << guard::last_json() << "}"; }
 	}
 }
 
-template<int D> void run_case(long id, view_program const& p, std::string const& kind, std::vector<iop_t> const& prog, long p1, long p2) {
+template<int D> void run_case(long id, view_program const& p, std::string const& kind, std::vector<iop_t> const& prog, long p1, long p2, twin_req const& q) {
 	multi::array<T, D, verif_alloc<T>> root(make_ext<D>(p.sizes, p.firsts, std::make_index_sequence<D>{}));
 	{ T k = 0; for(auto& e : root.elements()) { e = k++; } }
 	{ using vptr::raw; g_root = raw(root.data_elements()); }
@@ -137,7 +164,19 @@ template<int D> void run_case(long id, view_program const& p, std::string const&
 		std::visit([&](auto& v) {
 			using V = std::decay_t<decltype(v)>;
 			if constexpr(std::is_same_v<V, std::monostate> || std::is_same_v<V, elem0>) { os << ",\"st\":\"unsupported\",\"why\":\"element\""; }
-			else { observe_iters<V::rank_v>(v, kind, prog, p1, p2, os); }
+			else {
+				constexpr int DV = V::rank_v;
+				if(!q.has) { observe_iters<DV>(v, v, q, kind, prog, p1, p2, os); }
+				else {
+					any_view tw;
+					bool fin = true; std::string why;
+					try { fin = guard::run([&] { apply_op<DV>(v, q.op, tw); }); } catch(unsupported const& u) { why = u.why; }
+					if(!why.empty()) { os << ",\"st\":\"unsupported\",\"why\":\"twin: " << why << "\""; }
+					else if(!fin) { os << ",\"st\":\"abort\",\"at\":\"twin\",\"abort\":" << guard::last_json(); }
+					else if(auto* t = std::get_if<view_t<DV>>(&tw)) { observe_iters<DV>(v, *t, q, kind, prog, p1, p2, os); }
+					else { os << ",\"st\":\"unsupported\",\"why\":\"twin of another dimensionality\""; }
+				}
+			}
 		}, cur);
 	}
 #if VERIF_PTR_KIND == 2
@@ -161,12 +200,14 @@ int main() {
 		is >> kind >> p1 >> p2 >> nops;
 		std::vector<iop_t> prog(nops);
 		for(auto& o : prog) { is >> o.op >> o.r >> o.s >> o.n; }
+		twin_req q; std::string ttag; int has = 0;
+		if(is >> ttag >> has >> q.g1 >> q.g2) { q.has = has != 0; if(q.has) { std::size_t na = 0; is >> q.op.name >> na; q.op.a.resize(na); for(auto& x : q.op.a) { is >> x; } } }
 		guard::context() = id;
 		switch(p.D) {
-			case 1: run_case<1>(id, p, kind, prog, p1, p2); break;
-			case 2: run_case<2>(id, p, kind, prog, p1, p2); break;
-			case 3: run_case<3>(id, p, kind, prog, p1, p2); break;
-			case 4: run_case<4>(id, p, kind, prog, p1, p2); break;
+			case 1: run_case<1>(id, p, kind, prog, p1, p2, q); break;
+			case 2: run_case<2>(id, p, kind, prog, p1, p2, q); break;
+			case 3: run_case<3>(id, p, kind, prog, p1, p2, q); break;
+			case 4: run_case<4>(id, p, kind, prog, p1, p2, q); break;
 			default: std::cout << "{\"id\":" << id << ",\"st\":\"unsupported\",\"why\":\"root D\"}\n";
 		}
 	}
